@@ -42,7 +42,7 @@ def pools(sf, rng):
 
 
 def run(ctx):
-    sf = env.load_selfies()
+    sf = env.varied(env.load_selfies(), ctx)
     rng = ctx.rng
     quick = ctx.tier == "quick"
     pool_d, pool_e = pools(sf, rng)
